@@ -175,6 +175,15 @@ func runJob(prog *ssa.Program, pkgs map[string]*ssa.Package, job *Job) (res *Job
 				break
 			}
 		}
+		nviol := 0
+		for _, o := range ex.obligations {
+			if o.Verdict == "violated" {
+				nviol++
+			}
+		}
+		if nviol >= 8 {
+			break // enough counterexamples; the check fails anyway
+		}
 		if ex.paths >= job.MaxPaths {
 			ex.incon = append(ex.incon, fmt.Sprintf("path budget %d exhausted", job.MaxPaths))
 			break
